@@ -141,6 +141,7 @@ const PROBE_LIST: &[&str] = &[
     "swarm_history_len_1_3",
     "swarm_history_len_4_12",
     "swarm_history_len_13_48",
+    "swarm_history_len_200_600_on_1_or_2_registers",
     "swarm_registers_1_2",
     "swarm_registers_3_5",
     "swarm_registers_6_8",
@@ -217,6 +218,7 @@ struct P {
     len_s: usize,
     len_m: usize,
     len_l: usize,
+    len_xl: usize,
     regs_a: usize,
     regs_b: usize,
     regs_c: usize,
@@ -291,6 +293,7 @@ fn probes() -> &'static P {
         len_s: pi("swarm_history_len_1_3"),
         len_m: pi("swarm_history_len_4_12"),
         len_l: pi("swarm_history_len_13_48"),
+        len_xl: pi("swarm_history_len_200_600_on_1_or_2_registers"),
         regs_a: pi("swarm_registers_1_2"),
         regs_b: pi("swarm_registers_3_5"),
         regs_c: pi("swarm_registers_6_8"),
@@ -1291,10 +1294,17 @@ impl World for C15 {
         let nregs = 1 + rng.usize_below(NREGS);
         let mix = rng.usize_below(5);
         let overflow_ok = rng.chance(2, 5);
-        let len = match rng.below(3) {
-            0 => 1 + rng.usize_below(3),
-            1 => 4 + rng.usize_below(9),
-            _ => 13 + rng.usize_below(MAX_LEN - 12),
+        // one run in 256 is a long-lived history on one or two sets
+        let xl = rng.below(256) == 0;
+        let nregs = if xl { 1 + rng.usize_below(2) } else { nregs };
+        let len = if xl {
+            200 + rng.usize_below(401)
+        } else {
+            match rng.below(3) {
+                0 => 1 + rng.usize_below(3),
+                1 => 4 + rng.usize_below(9),
+                _ => 13 + rng.usize_below(MAX_LEN - 12),
+            }
         };
         obs.hit(p.mix + mix);
         obs.hit(if overflow_ok { p.over_allowed } else { p.over_never });
@@ -1302,8 +1312,10 @@ impl World for C15 {
             p.len_s
         } else if len <= 12 {
             p.len_m
-        } else {
+        } else if len <= MAX_LEN {
             p.len_l
+        } else {
+            p.len_xl
         });
         obs.hit(if nregs <= 2 {
             p.regs_a
